@@ -220,6 +220,13 @@ func NumLayouts() int { return len(Layouts(vrt.Bound("segs", 2), vrt.Bound("recs
 func ChooseShape() Shape {
 	ls := Layouts(vrt.Bound("segs", 2), vrt.Bound("recs", 2))
 	counts := ls[vrt.Choose("layout", len(ls))]
+	if mm := vrt.Bound("maxmsgs", 0); mm > 0 {
+		total := 0
+		for _, c := range counts {
+			total += c
+		}
+		vrt.Assume(total <= mm)
+	}
 	ver := vrt.Choose("ver", vrt.Bound("vers", 3))
 	prof := vrt.Bound("prof_base", 0) + vrt.Choose("prof", vrt.Bound("profs", 2))
 	v1 := make([]bool, len(counts))
